@@ -151,6 +151,8 @@ func c11Candidates(s []byte) [][]byte {
 	if len(s) > 0 {
 		c = append(c, s[1:], s[:len(s)-1])
 	}
+	// whitespace / case near misses
+	c = append(c, []byte(strings.Join(strings.Fields(string(s)), " ")), bytes.TrimSpace(s), bytes.ToUpper(s), bytes.ToLower(s))
 	return c
 }
 
